@@ -435,9 +435,9 @@ theorem insertSorted_perm (x : K × Nat) (l : List (K × Nat)) : (insertSorted x
     · exact List.Perm.refl _
     · exact (List.Perm.cons y ih).trans (List.Perm.swap x y ys)
 
+omit [Field K] [IsStrictOrderedRing K] in
 /-- **events_sorted**: the triggered events are handed out in nondecreasing order of estimated occurrence time, ties in
 ascending event id, and they are exactly the localised candidates (a permutation) -/
-omit [Field K] [IsStrictOrderedRing K] in
 theorem events_sorted (evs : List (K × Nat)) :
     (sortEvents evs).Pairwise NotAfter ∧ (sortEvents evs).Perm evs ∧
     (sortEvents evs).Pairwise (fun a b => a.1 ≤ b.1) := by
